@@ -89,7 +89,11 @@ fn reg_docs(b_guess: Option<u32>) -> Vec<(String, String)> {
     if let Some(b) = b_guess {
         if b <= 18 {
             let m = 1usize << b;
-            lens.extend([m - 1, m, m + 1]);
+            lens.extend([m - 1, m, m + 1, m / 2, 3 * m / 2]);
+            if b <= 12 {
+                // multiples of 2^b: same trailing zeros / same low bits as the valid length
+                lens.extend([2 * m, 3 * m, 5 * m, 4 * m]);
+            }
         }
     }
     lens.sort_unstable();
@@ -272,6 +276,6 @@ fn main() {
     run.ev.set("documents", json!({"total": docs, "accepted (must be valid and usable)": acc, "rejected": rej}));
     run.ev.set("exhaustive", json!(true));
     run.ev.set("samples", json!([{"document": "{\"registers\":[0,0,0],\"b\":4,\"buildhasher\":{\"seed\":7}}", "expected": "Err, or a sketch with 4 <= b <= 18 and 2^b registers on which add/count/merge/serialise do not panic"}]));
-    run.ev.set("rule", json!("round trip: every b x {empty, saturated, 255-filled, i mod 7, contents after one/two boundary adds} x 2 hasher seeds, then further adds and merges on both copies; rejection: b in 17 values x registers (length in {0,1,15,16,17,31,32,33,2^b-1,2^b,2^b+1} x 4 fills + out-of-range entries + wrong types) x {6 field orders, 3 omissions, 3 duplicates, unknown field, array form}"));
+    run.ev.set("rule", json!("round trip: every b x {empty, saturated, 255-filled, i mod 7, contents after one/two boundary adds} x 2 hasher seeds, then further adds and merges on both copies; rejection: b in 17 values x registers (length in {0,1,15,16,17,31,32,33,2^b-1,2^b,2^b+1,2^b/2,3*2^b/2,2*2^b,3*2^b,4*2^b,5*2^b} x 4 fills + out-of-range entries + wrong types) x {6 field orders, 3 omissions, 3 duplicates, unknown field, array form}"));
     run.finish();
 }
